@@ -66,6 +66,18 @@ class Boom(Exception):
         self.hid, self.eid = hid, eid
 
 
+class Abort(BaseException):
+    """The injected handler fault as an exception that is not an `Exception` (like asyncio.CancelledError or GeneratorExit-style
+    signals): the statement says "an exception in one handler", circuits isolates BaseException."""
+
+    def __init__(self, hid, eid):
+        BaseException.__init__(self, 'boom h%d e%d' % (hid, eid))
+        self.hid, self.eid = hid, eid
+
+
+FAULTS = (Boom, Abort)
+
+
 def _same(o, exp):
     if exp[0] == 'V':
         return type(o) is type(exp[1]) and o == exp[1]
@@ -186,7 +198,9 @@ def run_one(ctx):
         ctx.log('P', rec['eid'], S['hid'], step, item[0], repr(item[1]) if item[0] == 'V' else 'Boom')
 
     def fault(rec, S, step):
-        exc = Boom(S['hid'], rec['eid'])
+        exc = (Abort if ctx.ch.draw(4, 'fault-class') == 3 else Boom)(S['hid'], rec['eid'])
+        if isinstance(exc, Abort):
+            ctx.stat('fault:non-Exception-BaseException')
         t = tick_t()
         rec['raised'].append((S, exc))
         produce(rec, S, ('X', exc), step)
@@ -285,7 +299,7 @@ def run_one(ctx):
             fe = event.kwargs.get('fevent')
             rec = ev.get(getattr(fe, 'sim_id', None))
             val = event.args[1] if len(event.args) > 1 else None
-            if rec is None or not isinstance(val, Boom):
+            if rec is None or not isinstance(val, FAULTS):
                 # an exception that is not an injected fault: the harness itself (or mutated library code) raised inside a handler
                 st['harness'] = 'unexpected exception event: %r for %r: %s' % (val, fe, ''.join(event.args[2] if len(event.args) > 2 else [])[-1500:])
                 return
@@ -400,7 +414,7 @@ def run_one(ctx):
         ctx.trace('%s()' % how)
         try:
             root.tick() if how == 'tick' else root.flush()
-        except Exception as e:
+        except (Exception, Abort) as e:
             if ctx.violations:
                 return             # already reported; the run is not driven any further
             if st['faults']:
